@@ -1,5 +1,7 @@
 #!/usr/bin/env python3
 """seed_eval.py <src_dir> <seed_id> <property> [more checks...]
+The checks run from an isolated copy of /verif (/tmp/verif_eval, own build output) against the scratch worktree with
+the patch applied (H8VERIF_REPO), so that /repo itself - which background runs also build from - is never touched.
 Confirms a seeded change produced by a sub-agent in a scratch worktree (/tmp/wt/confirm):
   patch.diff alone  -> existing suite passes (226)
   patch + demo      -> the demo test fails
@@ -21,44 +23,67 @@ def tests(label):
     return (sum(int(a) for a, _ in ms), sum(int(b) for _, b in ms)) if ms else (None, r.stdout[-300:])
 conf = {}
 patch, demo = os.path.join(src, 'patch.diff'), os.path.join(src, 'demo.diff')
+SKIP = os.environ.get('SKIP_CONFIRM') == '1'   # re-evaluation of a seed that was confirmed before
+old_meta = {}
+if os.path.exists('/verif/seeded/%s/meta.json' % sid):
+    old_meta = json.load(open('/verif/seeded/%s/meta.json' % sid))
 a = sh('git apply %s' % patch, cwd=WT)
 if a.returncode != 0:
     print('patch does not apply:', a.stderr[:300]); sys.exit(1)
-conf['patch_only'] = tests('patch')
-b = sh('git apply %s' % demo, cwd=WT)
-conf['patch_plus_demo'] = tests('both') if b.returncode == 0 else ('demo does not apply', b.stderr[:200])
-sh('git checkout -- . && git clean -fdq -e target', cwd=WT)
-sh('git apply %s' % demo, cwd=WT)
-conf['demo_only'] = tests('demo')
-sh('git checkout -- . && git clean -fdq -e target', cwd=WT)
+if SKIP and old_meta.get('confirmed', {}).get('ok'):
+    sh('git checkout -- . && git clean -fdq -e target', cwd=WT)
+    c0 = old_meta['confirmed']
+    conf = {'patch_only': tuple(c0.get('patch_only_tests', (226, 0))), 'patch_plus_demo': tuple(c0.get('patch_plus_demo_tests', (226, 1))), 'demo_only': tuple(c0.get('demo_only_tests', (227, 0)))}
+else:
+    conf['patch_only'] = tests('patch')
+    b = sh('git apply %s' % demo, cwd=WT)
+    conf['patch_plus_demo'] = tests('both') if b.returncode == 0 else ('demo does not apply', b.stderr[:200])
+    sh('git checkout -- . && git clean -fdq -e target', cwd=WT)
+    sh('git apply %s' % demo, cwd=WT)
+    conf['demo_only'] = tests('demo')
+    sh('git checkout -- . && git clean -fdq -e target', cwd=WT)
 ok = conf['patch_only'][1] == 0 and conf['patch_only'][0] >= 226 and isinstance(conf['patch_plus_demo'][1], int) and conf['patch_plus_demo'][1] >= 1 and conf['demo_only'][1] == 0
 print('confirmation:', conf, 'OK' if ok else 'NOT CONFIRMED')
 results = {}
+EV = '/tmp/verif_eval'
 if ok:
-    assert sh('git -C /repo status --short').stdout.strip() == '', 'repo not clean'
-    r = sh('git -C /repo apply %s' % patch)
+    sh('mkdir -p %s && rsync -a --delete --exclude target --exclude replays --exclude .git /verif/ %s/' % (EV, EV))
+    sh('git apply %s' % patch, cwd=WT)
     try:
         for c in checks:
             t0 = time.time()
-            p = sh('/verif/check %s --tier quick' % c, timeout=3000)
+            p = sh('H8VERIF_REPO=%s %s/check %s --tier quick' % (WT, EV, c), timeout=3000)
             lines = [l.strip() for l in p.stdout.splitlines() if l.startswith('VIOLATION') or l.strip().startswith('what:') or l.strip().startswith('detail:')]
             results[c] = {'exit': p.returncode, 'seconds': round(time.time() - t0), 'report': lines[:3]}
             print(' check', c, '-> exit', p.returncode, lines[1][:150] if len(lines) > 1 else '')
+            # keep the (shrunk) failing input as a regression replay for the seconds-long tier
+            if p.returncode == 1 and lines:
+                m = re.search(r'replay=(\S+)', lines[0])
+                if m and os.path.exists(m.group(1)):
+                    d = '/verif/corpus/regress/%s' % c
+                    os.makedirs(d, exist_ok=True)
+                    shutil.copy(m.group(1), os.path.join(d, '%s.json' % sid))
     finally:
-        sh('git -C /repo checkout -- .')
-    assert sh('git -C /repo status --short').stdout.strip() == ''
+        sh('git checkout -- . && git clean -fdq -e target', cwd=WT)
 dst = '/verif/seeded/%s' % sid
 os.makedirs(dst, exist_ok=True)
 for f in ['patch.diff', 'demo.diff', 'notes.md']:
-    if os.path.exists(os.path.join(src, f)):
+    if os.path.exists(os.path.join(src, f)) and os.path.abspath(src) != os.path.abspath(dst):
         shutil.copy(os.path.join(src, f), dst)
 notes = open(os.path.join(src, 'notes.md')).read() if os.path.exists(os.path.join(src, 'notes.md')) else ''
 meta = {'property': prop, 'origin': 'independent sub-agent given only the property text and a scratch worktree',
         'needs_to_manifest': notes[:1200],
         'confirmed': {'patch_only_tests': conf['patch_only'], 'patch_plus_demo_tests': conf['patch_plus_demo'], 'demo_only_tests': conf['demo_only'], 'ok': ok,
-                      'how': 'scratch worktree /tmp/wt/confirm at /repo HEAD: git apply patch.diff; cargo test --offline; git apply demo.diff; cargo test --offline; revert; demo.diff alone; cargo test --offline'},
+                      'how': 'scratch worktree /tmp/wt/confirm at /repo HEAD: git apply patch.diff; cargo test --offline; git apply demo.diff; cargo test --offline; revert; demo.diff alone; cargo test --offline; the checks run from a copy of /verif with H8VERIF_REPO pointing at the patched worktree'},
         'checks_run': results,
         'caught_by': [c for c, r in results.items() if r['exit'] == 1],
         'repo_head': sh('git -C /repo rev-parse --short HEAD').stdout.strip()}
+if SKIP and old_meta:
+    # keep the record of the first evaluation; add what was run now
+    old_meta.setdefault('checks_run', {}).update(results)
+    old_meta['caught_by'] = sorted(set(old_meta.get('caught_by', [])) | set(meta['caught_by']))
+    meta = old_meta
+elif 'history' in old_meta:
+    meta['history'] = old_meta['history']
 json.dump(meta, open(os.path.join(dst, 'meta.json'), 'w'), indent=1)
 print('stored', dst, 'caught_by', meta['caught_by'])
